@@ -102,6 +102,16 @@ func vfStandaloneGeneric(test string, cl vfCall) string {
 	return n + "_%d.snap" + ext
 }
 
+// vfStandaloneName fills the occurrence number into a generic standalone name: the LAST `%d` is the number's place
+// (a test name may contain the two characters itself).
+func vfStandaloneName(generic string, k int) string {
+	i := strings.LastIndex(generic, "%d")
+	if i < 0 {
+		return generic
+	}
+	return generic[:i] + fmt.Sprint(k) + generic[i+2:]
+}
+
 // call steps the model by one Match* call whose formatted value is val.
 // It returns the outcome (pass | added | updated | failed), the slot state it
 // found (missing | equal | different) and the id / file name addressed.
@@ -115,7 +125,7 @@ func (m *vfModel) call(test string, cl vfCall, val string) (outcome, slot, id st
 			m.saddr[g] = map[int]bool{}
 		}
 		m.saddr[g][k] = true
-		name := strings.Replace(g, "%d", fmt.Sprint(k), 1)
+		name := vfStandaloneName(g, k)
 		prev, ok := m.sfiles[name]
 		switch {
 		case !ok:
